@@ -52,6 +52,10 @@ class Ctx:
         self.harness_bin = os.path.join(CACHE, TARGET, "debug", "verif_harness")
         self.release_bin = os.path.join(CACHE, TARGET, "release", "verif_harness")
         self.release_ok = False      # set by ./check when the optimised build of the harness exists
+        self.sync_bin = os.path.join(CACHE, TARGET + "_sync", "debug", "verif_harness_sync")
+        self.sync_ok = False         # set by ./check when the build of mpd_protocol WITHOUT its async feature exists
+        self.feature_diffs = []      # (case, output with the feature, output without): the blocking connection depends on a Cargo feature
+        self.feature_cases = 0
         self.profile_diffs = []      # (case, debug output, release output): the two builds of the implementation disagree
         self.profile_cases = 0
         self.marker_fails = []       # violations the harness found by its own cross-checks (see marker_failures)
@@ -96,6 +100,18 @@ class Ctx:
             for c, a, b_ in zip([l for l in lines if l], out, rel):
                 if a != b_:
                     self.profile_diffs.append((c, a, b_))
+        if harness_bin is None and deterministic and self.sync_ok and os.path.exists(self.sync_bin):
+            # the blocking flavour once more, from a build of mpd_protocol without its `async` feature
+            idx = [i for i, l in enumerate([l for l in lines if l]) if l.split(" ")[0] in ("recv", "conn", "frame", "resp") and
+                   (l.split(" ")[0] in ("frame", "resp") or l.split(" ")[1].startswith("b"))]
+            if idx:
+                ls = [l for l in lines if l]
+                sub = [ls[i] for i in idx]
+                syn = self._run(self.sync_bin, sub, "implsync")
+                self.feature_cases += len(sub)
+                for i, b_ in zip(idx, syn):
+                    if out[i] != b_:
+                        self.feature_diffs.append((ls[i], out[i], b_))
         return out
 
     def run_model(self, lines):
@@ -429,6 +445,30 @@ def harness_dir():
     return stage
 
 
+def step_harness_sync(ctx):
+    """The blocking-flavour harness built against mpd_protocol WITHOUT its `async` feature (harness_sync/).  A failure to build it is
+    a note, not a broken tie: the default configuration is the one the properties are claimed for."""
+    src = os.path.join(VERIF, "harness_sync")
+    if not os.path.isdir(src):
+        return False
+    stage = src
+    if os.path.abspath(REPO) != "/repo":
+        stage = os.path.join(CACHE, "harness_sync_stage")
+        os.makedirs(os.path.join(stage, "src"), exist_ok=True)
+        main = open(os.path.join(src, "src", "main.rs")).read().replace('"../../harness/src/', '"' + os.path.join(VERIF, "harness", "src") + "/")
+        for name, data in (("src/main.rs", main), ("Cargo.toml", open(os.path.join(src, "Cargo.toml")).read().replace('"/repo/', '"' + os.path.abspath(REPO) + "/"))):
+            dst = os.path.join(stage, name)
+            if not os.path.exists(dst) or open(dst).read() != data:
+                open(dst, "w").write(data)
+    shutil.copy(os.path.join(REPO, "Cargo.lock"), os.path.join(stage, "Cargo.lock"))
+    env = {"CARGO_NET_OFFLINE": "true", "CARGO_TARGET_DIR": os.path.join(CACHE, TARGET + "_sync")}
+    rc, out = sh(["cargo", "build", "--offline", "--quiet"], cwd=stage, timeout=3000, env=env)
+    if rc != 0:
+        ctx.notes.append("the blocking-only harness (mpd_protocol without the async feature) did not build: " + out[-300:].replace("\n", " "))
+        return False
+    return True
+
+
 def step_harness(ctx, features=None, target=None, release=False):
     target = target or TARGET
     HARNESS = harness_dir()
@@ -511,9 +551,15 @@ def finish(ctx, *, evaluations, distinct_nontrivial, rule, samples, distribution
     for c, a, b_ in ctx.profile_diffs[:20]:
         oracle_failures.append(Failure(c, "the optimised (release) build of the implementation answers differently from the debug build on this "
                                           f"input, so one of them breaks the property:\n  debug  : {a[:700]}\n  release: {b_[:700]}", extra={"profile": "release"}))
+    for c, a, b_ in ctx.feature_diffs[:20]:
+        oracle_failures.append(Failure(c, "the blocking connection answers differently when mpd_protocol is built without its `async` feature, so one "
+                                          f"of the two builds breaks the property:\n  with the feature   : {a[:700]}\n  without the feature: {b_[:700]}", extra={"feature": "async off"}))
     if ctx.profile_cases:
         distribution = dict(distribution)
         distribution["also_run_on_release_build"] = ctx.profile_cases
+    if ctx.feature_cases:
+        distribution = dict(distribution)
+        distribution["also_run_without_the_async_feature"] = ctx.feature_cases
     known = [k for k in load_known() if k["property"] == ctx.prop and k["status"] == "known"]
     known_classes = {k["class"]: k for k in known}
     new_fail = [f for f in oracle_failures if f.klass not in known_classes]
